@@ -148,7 +148,17 @@ def to_lean(site, expr, want):
         raise X.TieBroken("guard:" + site, "%s: `%s` left the expression grammar: %s" % (site, expr.strip(), e))
 
 
+VERIF_BLOCK = re.compile(r"^#ifdef NEOLITH_VERIF\n(?:(?!#endif|#ifdef|#if |#ifndef|#else).*\n)*#endif[^\n]*\n", re.M)
+
+
+def strip_hooks(src):
+    """guarded verification hooks (`#ifdef NEOLITH_VERIF` ... `#endif`, add-only, no nesting, no #else) are not part of
+    the code the model mirrors: they are cut out before any pattern is matched"""
+    return VERIF_BLOCK.sub("", src)
+
+
 def func_body(src, header_re, site):
+    src = strip_hooks(src)
     m = re.search(header_re, src)
     if not m:
         raise X.TieBroken("guard:" + site, "cannot locate %s in src/comm.c" % site)
@@ -357,7 +367,7 @@ def shape_checks(read):
     checked site names (written into the Gen file as a comment and into the evidence)"""
     done = []
     for site, path, fn, pat, count in SHAPES:
-        text = read(path)
+        text = strip_hooks(read(path))
         if fn:
             text = func_body(text, HEADERS[fn][0], HEADERS[fn][1])
         n = len(re.findall(pat, text, re.S))
